@@ -577,7 +577,332 @@ Section Facts.
           now apply (sound_hit n st o f ra k ov c1 st' v IH Hi Hko Hf Hra Ek Em Eg).
         - now apply (sound_miss n st o f ra st' v IH Hi Hko Hf Hra).
       Qed.
+
+      (* ---------------------------------------------------------------- 5. completeness *)
+      Definition complete_at (n : nat) : Prop :=
+        forall st o v, inv st -> aget kw o = None -> EvalOk o v -> RK o < n -> exists st' v', RUN n st o = (st', Ok v').
+
+      Lemma eval_ok_inv o v : EvalOk o v ->
+        exists f m args r, producer p o = Some f /\ args_with (eval body pick m p kw) p kw f = Ok args
+                           /\ body (fname f) args = Ok r.
+      Proof.
+        intros [m Hm]. destruct m as [|m]; [discriminate|]. rewrite eval_S in Hm.
+        destruct (producer p o) as [f|]; [|discriminate]. unfold eval_raw in Hm.
+        destruct (args_with (eval body pick m p kw) p kw f) as [args|e] eqn:Ea; cbn in Hm; [|discriminate].
+        destruct (body (fname f) args) as [r|e] eqn:Eb; cbn in Hm; [|discriminate].
+        exists f, m, args, r. auto.
+      Qed.
+
+      Lemma complete_args n f o : complete_at n -> producer p o = Some f -> RK o < S n ->
+        forall ps st acc, inv st -> incl (map fst ps) (pnames f) ->
+          (forall cur, In cur (map fst ps) -> exists v, arg_ok f cur v) ->
+          exists st' args, ARGS (RUN n) f ps st acc = (st', Ok args).
+      Proof.
+        intros IH Hf Hrk. induction ps as [|[cur orig] t IHt]; intros st acc Hi Hincl Hargs.
+        - cbn. eauto.
+        - rewrite cget_args_cons.
+          assert (Hc : In cur (pnames f)) by (apply Hincl; now left).
+          destruct (Hargs cur (or_introl eq_refl)) as [v [m Hv]].
+          assert (Hres : exists st1 v1, cresolve p kw (RUN n) f st cur = (st1, Ok v1)).
+          { unfold cresolve. unfold arg_val in Hv. destruct (aget (bound f) cur) as [b|] eqn:Eb; [eauto|].
+            destruct (aget kw cur) as [w|] eqn:Ek; [eauto|]. destruct (is_output p cur) eqn:Eo.
+            - apply (IH st cur v Hi Ek); [now exists m|]. pose proof (rk_up o f cur Hf Hc Eb Eo). lia.
+            - rewrite <- (pdefault_eq p cur CONS) in Hv. destruct (pdefault p cur); [eauto | discriminate]. }
+          destruct Hres as [st1 [v1 Hr]]. rewrite Hr.
+          destruct (sound_resolve n f st cur st1 v1 (sound n) Hi Hr) as [Hi1 _].
+          apply IHt; [exact Hi1 | |].
+          + intros x Hx. apply Hincl. now right.
+          + intros x Hx. apply Hargs. now right.
+      Qed.
+
+      Lemma complete_ok : forall n, complete_at n.
+      Proof.
+        induction n as [|n IH]; intros st o v Hi Hko He Hrk; [lia|].
+        rewrite crun_out_S. destruct (aget (xres st) o) as [v0|] eqn:Eres; [eauto|].
+        destruct (eval_ok_inv o v He) as [f [m [args0 [r0 [Hf [Ha0 Hb0]]]]]]. rewrite Hf.
+        destruct (roots_exist o f Hf) as [ra Hra]. rewrite Hra.
+        apply producer_In in Hf as Hf'. destruct Hf' as [Hfp Ho]. pose proof (wf_f f Hfp) as Hwf.
+        assert (Hargs : forall cur, In cur (map fst (params f)) -> exists w, arg_ok f cur w).
+        { intros cur Hc. apply in_map_iff in Hc as [[c1 o1] [<- Hin]]. unfold args_with in Ha0.
+          destruct (mapM_ok_In _ _ _ _ Ha0 Hin) as [y Hy]. cbn in Hy.
+          destruct (arg_val (eval body pick m p kw) p kw f c1) as [w|e] eqn:E; [|discriminate]. exists w. now exists m. }
+        assert (CA : forall st0, inv st0 -> exists st' args, ARGS (RUN n) f (params f) st0 [] = (st', Ok args)).
+        { intros st0 Hi0. apply (complete_args n f o IH Hf Hrk); [exact Hi0 | apply incl_refl | exact Hargs]. }
+        unfold run_func. destruct (found_of st (the_key f ra)) as [[ov c1]|] eqn:Efound.
+        - unfold found_of in Efound. destruct (the_key f ra) as [k|] eqn:Ek; [|discriminate].
+          destruct (cmem P (xc st) k) eqn:Em; [|discriminate]. injection Efound as Eg.
+          destruct Hi as [Hres Hc].
+          destruct (cache_inv_hit (xc st) k Hc Em) as [r [Hr Hent]]. rewrite Eg in Hr. cbn in Hr. subst ov.
+          apply (key_entry o f ra k r Hf Hra Ek) in Hent.
+          pose proof (cache_inv_get (xc st) k Hc) as Hc1. rewrite Eg in Hc1. cbn in Hc1.
+          unfold hit_branch. cbn [hit_value].
+          assert (Hi1 : inv (x_res (x_c st c1) (update_all_results pick f r (xres st)))).
+          { split; [|exact Hc1]. apply upd_res_ok; try assumption. now apply (single_requested f o). }
+          destruct (negb full).
+          + cbn. unfold out_of. pose proof (upd_has f r (xres st) o Hwf Ho) as Hh.
+            destruct (aget (update_all_results pick f r (xres st)) o); [eauto | congruence].
+          + cbn [x_c x_res xres]. destruct (CA _ Hi1) as [st2 [args Ea]]. rewrite Ea.
+            destruct (sound_args_raw n f _ st2 args (sound n) Hi1 Ea) as [_ [Hd _]].
+            unfold out_of. pose proof (Hd o (upd_has f r (xres st) o Hwf Ho)) as Hh.
+            destruct (aget (xres st2) o); [eauto | congruence].
+        - unfold miss_branch. destruct (CA st Hi) as [st1 [args Ea]]. rewrite Ea.
+          destruct (sound_args_raw n f st st1 args (sound n) Hi Ea) as [_ [_ [m' Hm']]].
+          assert (args = args0).
+          { pose proof (args_with_mono (eval body pick m p kw) (eval body pick (max m m') p kw) p kw f args0
+                          (fun c w Hc => eval_mono body pick p kw m c w Hc (max m m') ltac:(lia)) Ha0) as H1.
+            pose proof (args_with_mono (eval body pick m' p kw) (eval body pick (max m m') p kw) p kw f args
+                          (fun c w Hc => eval_mono body pick p kw m' c w Hc (max m m') ltac:(lia)) Hm') as H2.
+            congruence. }
+          subst args0. rewrite Hb0. unfold out_of.
+          set (st3 := match the_key f ra with Some k => _ | None => _ end).
+          pose proof (upd_has f r0 (xres st3) o Hwf Ho) as Hh.
+          destruct (aget (update_all_results pick f r0 (xres st3)) o); [eauto | congruence].
+      Qed.
+
+      Lemma complete n st o v : inv st -> aget kw o = None -> EvalOk o v -> RK o < n ->
+        exists st', RUN n st o = (st', Ok v) /\ inv st' /\ dom_le st st'.
+      Proof.
+        intros Hi Hko He Hrk. destruct (complete_ok n st o v Hi Hko He Hrk) as [st' [v' H]].
+        destruct (sound n st o st' v' Hi Hko H) as [He' [Hi' Hd]].
+        rewrite (EvalOk_det o v v' He He'). eauto.
+      Qed.
+
+      (* ---------------------------------------------------------------- 6a. xhit is monotone; frame property *)
+      Definition hit_mono_at (n : nat) : Prop :=
+        forall st o st' r, RUN n st o = (st', r) -> xhit st = true -> xhit st' = true.
+
+      Lemma hit_mono_args n f : hit_mono_at n -> forall ps st acc st' r,
+        ARGS (RUN n) f ps st acc = (st', r) -> xhit st = true -> xhit st' = true.
+      Proof.
+        intros IH. induction ps as [|[cur orig] t IHt]; intros st acc st' r H Hx.
+        - cbn in H. now injection H as <- _.
+        - rewrite cget_args_cons in H. destruct (cresolve p kw (RUN n) f st cur) as [st1 rv] eqn:Er.
+          assert (H1 : xhit st1 = true).
+          { unfold cresolve in Er. destruct (aget (bound f) cur); [now injection Er as <- _|].
+            destruct (aget kw cur); [now injection Er as <- _|]. destruct (is_output p cur); [now apply (IH st cur st1 rv)|].
+            destruct (pdefault p cur); now injection Er as <- _. }
+          destruct rv as [v|e]; [|now injection H as <- _]. now apply (IHt (x_use st1 cur) _ st' r H).
+      Qed.
+
+      Lemma hit_mono : forall n, hit_mono_at n.
+      Proof.
+        induction n as [|n IH]; intros st o st' r H Hx; [cbn in H; now injection H as <- _|].
+        rewrite crun_out_S in H. destruct (aget (xres st) o); [now injection H as <- _|].
+        destruct (producer p o) as [f|]; [|now injection H as <- _].
+        destruct (root_args p o) as [ra|e]; [|now injection H as <- _].
+        unfold run_func in H. destruct (found_of st (the_key f ra)) as [[ov c1]|].
+        - unfold hit_branch in H. destruct (hit_value f ov) as [r0|e]; [|now injection H as <- _].
+          destruct (negb full); [now injection H as <- _|]. cbn zeta in H.
+          destruct (ARGS (RUN n) f (params f) _ []) as [st2 ra2] eqn:Ea.
+          assert (H2 : xhit st2 = true) by (apply (hit_mono_args n f IH _ _ _ _ _ Ea); exact Hx).
+          destruct ra2; now injection H as <- _.
+        - unfold miss_branch in H. destruct (ARGS (RUN n) f (params f) st []) as [st1 ra1] eqn:Ea.
+          assert (H1 : xhit st1 = true) by (apply (hit_mono_args n f IH _ _ _ _ _ Ea); exact Hx).
+          destruct ra1 as [args|e]; [|now injection H as <- _].
+          destruct (body (fname f) args); [|now injection H as <- _].
+          injection H as <- _. destruct (the_key f ra); exact H1.
+      Qed.
+
+      (* a run for o never touches names of larger rank *)
+      Definition frame_at (n : nat) : Prop :=
+        forall st o st' r x, RUN n st o = (st', r) -> RK o < RK x -> aget (xres st') x = aget (xres st) x.
+
+      Lemma frame_args n f o : frame_at n -> producer p o = Some f ->
+        forall ps, incl (map fst ps) (pnames f) ->
+        forall st acc st' r x, ARGS (RUN n) f ps st acc = (st', r) -> RK o <= RK x -> aget (xres st') x = aget (xres st) x.
+      Proof.
+        intros IH Hf. induction ps as [|[cur orig] t IHt]; intros Hincl st acc st' r x H Hx.
+        - cbn in H. now injection H as <- _.
+        - rewrite cget_args_cons in H. destruct (cresolve p kw (RUN n) f st cur) as [st1 rv] eqn:Er.
+          assert (Hc : In cur (pnames f)) by (apply Hincl; now left).
+          assert (H1 : aget (xres st1) x = aget (xres st) x).
+          { unfold cresolve in Er. destruct (aget (bound f) cur) eqn:Eb; [now injection Er as <- _|].
+            destruct (aget kw cur); [now injection Er as <- _|]. destruct (is_output p cur) eqn:Eo.
+            - apply (IH st cur st1 rv x Er). pose proof (rk_up o f cur Hf Hc Eb Eo). lia.
+            - destruct (pdefault p cur); now injection Er as <- _. }
+          destruct rv as [v|e]; [|now injection H as <- _].
+          rewrite <- H1. apply (IHt (fun y Hy => Hincl y (or_intror Hy)) (x_use st1 cur) _ st' r x H Hx).
+      Qed.
+
+      Lemma not_out_of_rank o f x : producer p o = Some f -> RK o < RK x -> ~ In x (outs f).
+      Proof. intros Hf Hlt Hin. pose proof (rk_same_func o x f Hf Hin). lia. Qed.
+
+      Lemma frame : forall n, frame_at n.
+      Proof.
+        induction n as [|n IH]; intros st o st' r x H Hx; [cbn in H; now injection H as <- _|].
+        rewrite crun_out_S in H. destruct (aget (xres st) o); [now injection H as <- _|].
+        destruct (producer p o) as [f|] eqn:Hf; [|now injection H as <- _].
+        destruct (root_args p o) as [ra|e]; [|now injection H as <- _].
+        apply producer_In in Hf as Hf'. destruct Hf' as [Hfp _]. pose proof (wf_f f Hfp) as Hwf.
+        pose proof (not_out_of_rank o f x Hf Hx) as Hnx.
+        unfold run_func in H. destruct (found_of st (the_key f ra)) as [[ov c1]|].
+        - unfold hit_branch in H. destruct (hit_value f ov) as [r0|e]; [|now injection H as <- _].
+          destruct (negb full).
+          + injection H as <- _. cbn. now apply upd_other.
+          + cbn zeta in H. destruct (ARGS (RUN n) f (params f) _ []) as [st2 ra2] eqn:Ea.
+            pose proof (frame_args n f o IH Hf (params f) (incl_refl _) _ _ _ _ x Ea ltac:(lia)) as H2.
+            cbn in H2. rewrite (upd_other f r0 (xres st) x Hnx Hwf) in H2.
+            destruct ra2; now injection H as <- _.
+        - unfold miss_branch in H. destruct (ARGS (RUN n) f (params f) st []) as [st1 ra1] eqn:Ea.
+          pose proof (frame_args n f o IH Hf (params f) (incl_refl _) _ _ _ _ x Ea ltac:(lia)) as H1.
+          destruct ra1 as [args|e]; [|now injection H as <- _].
+          destruct (body (fname f) args) as [r0|e]; [|now injection H as <- _].
+          injection H as <- _. cbn. rewrite upd_other by assumption. destruct (the_key f ra); exact H1.
+      Qed.
     End OnCall.
+
+    (* ---------------------------------------------------------------- 6b. the cached run simulates the uncached run
+       as long as no result was returned early from the cache (xhit stays false): same used_parameters, same
+       all_results - except, while the arguments of a function that hit with full_output are being collected, the
+       outputs X of the functions on the stack (they were written early) *)
+    Section Twin.
+      Variable kw : alist.
+      Variable full : bool.
+      Notation RUNC := (crun_out body pick P false true p kw full).
+      Notation RUNU := (crun_out body pick P false false p kw full).
+      Notation ARGS := (cget_args p kw).
+      Notation INV := (inv kw).
+
+      Definition simR (X : list str) (stc stu : @xstate C) : Prop :=
+        xused stc = xused stu /\ forall n, ~ In n X -> aget (xres stc) n = aget (xres stu) n.
+
+      Definition sim_at (n : nat) : Prop :=
+        forall X stc stu o stc' rc stu' v,
+          simR X stc stu -> (forall x, In x X -> RK o < RK x) -> INV stc -> INV stu -> aget kw o = None ->
+          RUNC n stc o = (stc', rc) -> RUNU n stu o = (stu', Ok v) -> xhit stc' = false ->
+          rc = Ok v /\ simR X stc' stu'.
+
+      Lemma simR_use X stc stu k : simR X stc stu -> simR X (x_use stc k) (x_use stu k).
+      Proof. intros [H1 H2]. split; [cbn; now rewrite H1 | exact H2]. Qed.
+
+      Lemma sim_args n f o : sim_at n -> producer p o = Some f ->
+        forall ps, incl (map fst ps) (pnames f) ->
+        forall X stc stu acc stc' rac stu' args,
+          simR X stc stu -> (forall x, In x X -> RK o <= RK x) -> INV stc -> INV stu ->
+          ARGS (RUNC n) f ps stc acc = (stc', rac) -> ARGS (RUNU n) f ps stu acc = (stu', Ok args) -> xhit stc' = false ->
+          rac = Ok args /\ simR X stc' stu'.
+      Proof.
+        intros IH Hf. induction ps as [|[cur orig] t IHt]; intros Hincl X stc stu acc stc' rac stu' args HR HX Hic Hiu Hc Hu Hh.
+        - cbn in Hc, Hu. injection Hc as <- <-. injection Hu as <- <-. now split.
+        - rewrite cget_args_cons in Hc, Hu.
+          destruct (cresolve p kw (RUNC n) f stc cur) as [stc1 rvc] eqn:Erc.
+          destruct (cresolve p kw (RUNU n) f stu cur) as [stu1 rvu] eqn:Eru.
+          destruct rvu as [vu|e]; [|discriminate].
+          assert (Hcur : In cur (pnames f)) by (apply Hincl; now left).
+          assert (Hh1 : xhit stc1 = false).
+          { destruct (xhit stc1) eqn:E; [|reflexivity]. destruct rvc as [vc|e]; cbn beta iota in Hc.
+            - rewrite (hit_mono_args kw full true n f (hit_mono kw full true n) t (x_use stc1 cur) (acc ++ [(orig, vc)])
+                         stc' rac Hc E) in Hh. discriminate.
+            - injection Hc as <- _. congruence. }
+          assert (Hstep : rvc = Ok vu /\ simR X stc1 stu1 /\ INV stc1 /\ INV stu1).
+          { pose proof (sound_resolve kw full false n f stu cur stu1 vu (sound kw full false n) Hiu Eru) as [Hiu1 _].
+            unfold cresolve in Erc, Eru. destruct (aget (bound f) cur) eqn:Eb.
+            { injection Erc as <- <-. injection Eru as <- <-. auto. }
+            destruct (aget kw cur) eqn:Ek.
+            { injection Erc as <- <-. injection Eru as <- <-. auto. }
+            destruct (is_output p cur) eqn:Eo.
+            - assert (HX' : forall x, In x X -> RK cur < RK x).
+              { intros x Hx. pose proof (HX x Hx). pose proof (rk_up o f cur Hf Hcur Eb Eo). lia. }
+              destruct (IH X stc stu cur stc1 rvc stu1 vu HR HX' Hic Hiu Ek Erc Eru Hh1) as [-> HR1].
+              pose proof (sound kw full true n stc cur stc1 vu Hic Ek Erc) as [_ [Hic1 _]]. auto.
+            - destruct (pdefault p cur); [|discriminate]. injection Erc as <- <-. injection Eru as <- <-. auto. }
+          destruct Hstep as [-> [HR1 [Hic1 Hiu1]]]. cbn beta iota in Hc, Hu.
+          apply (IHt (fun y Hy => Hincl y (or_intror Hy)) X (x_use stc1 cur) (x_use stu1 cur) (acc ++ [(orig, vu)])
+                   stc' rac stu' args); try assumption. now apply simR_use.
+      Qed.
+
+      (* the two updates of all_results agree outside X *)
+      Lemma simR_upd X stc stu f r : simR X stc stu ->
+        simR X (x_res stc (update_all_results pick f r (xres stc))) (x_res stu (update_all_results pick f r (xres stu))).
+      Proof.
+        intros [H1 H2]. split; [exact H1|]. intros n Hn. cbn. destruct (multi f) eqn:Hm.
+        - rewrite !upd_get_multi by assumption. now rewrite (H2 n Hn).
+        - rewrite !upd_get_single by assumption. now rewrite (H2 n Hn).
+      Qed.
+
+      Lemma sim : forall n, sim_at n.
+      Proof.
+        induction n as [|n IH]; intros X stc stu o stc' rc stu' v HR HX Hic Hiu Hko Hc Hu Hh; [discriminate|].
+        rewrite crun_out_S in Hc, Hu.
+        assert (HoX : ~ In o X) by (intros Hi; specialize (HX o Hi); lia).
+        rewrite (proj2 HR o HoX) in Hc. destruct (aget (xres stu) o) as [v0|] eqn:Eres.
+        { injection Hc as <- <-. injection Hu as <- <-. now split. }
+        destruct (producer p o) as [f|] eqn:Hf; [|discriminate].
+        destruct (root_args p o) as [ra|e] eqn:Hra; [|discriminate].
+        apply producer_In in Hf as Hf'. destruct Hf' as [Hfp Ho]. pose proof (wf_f f Hfp) as Hwf.
+        (* the uncached twin: a miss without key *)
+        unfold run_func in Hu. change (the_key kw false f ra) with (@None ckey) in Hu. cbn [found_of] in Hu.
+        unfold miss_branch in Hu.
+        destruct (ARGS (RUNU n) f (params f) stu []) as [stu1 rau] eqn:Eau. destruct rau as [argsu|e]; [|discriminate].
+        destruct (body (fname f) argsu) as [ru|e] eqn:Ebu; [|discriminate].
+        injection Hu as <- Hvu. cbn [xres x_res x_log] in Hvu.
+        destruct (sound_args_raw kw full false n f stu stu1 argsu (sound kw full false n) Hiu Eau) as [Hiu1 [_ [mu Hmu]]].
+        assert (Hrawu : RawOk kw f ru) by (exists mu; unfold eval_raw; now rewrite Hmu).
+        unfold run_func in Hc. destruct (found_of stc (the_key kw true f ra)) as [[ov c1]|] eqn:Efound.
+        - (* a hit *)
+          unfold found_of in Efound. destruct (the_key kw true f ra) as [k|] eqn:Ek; [|discriminate].
+          destruct (cmem P (xc stc) k) eqn:Em; [|discriminate]. injection Efound as Eg.
+          destruct Hic as [Hresc Hcc].
+          destruct (cache_inv_hit (xc stc) k Hcc Em) as [r [Hr Hent]]. rewrite Eg in Hr. cbn in Hr. subst ov.
+          apply (key_entry kw true o f ra k r Hf Hra Ek) in Hent.
+          assert (r = ru) by (destruct Hent as [m1 H1]; destruct Hrawu as [m2 H2]; exact (eval_raw_det body pick p kw m1 m2 f r ru H1 H2)).
+          subst ru.
+          pose proof (cache_inv_get (xc stc) k Hcc) as Hc1. rewrite Eg in Hc1. cbn in Hc1.
+          unfold hit_branch in Hc. cbn [hit_value] in Hc. destruct (negb full).
+          { cbn in Hc. injection Hc as <- _. cbn in Hh. discriminate. }
+          cbn [x_c x_res xres] in Hc.
+          destruct (ARGS (RUNC n) f (params f) _ []) as [stc2 rac] eqn:Eac in Hc.
+          assert (Hh2 : xhit stc2 = false) by (destruct rac; injection Hc as <- _; exact Hh).
+          set (stc1 := x_res (x_c stc c1) (update_all_results pick f r (xres stc))) in *.
+          assert (Hic1 : INV stc1).
+          { split; [|exact Hc1]. apply upd_res_ok; try assumption. now apply (single_requested kw f o). }
+          assert (HR1 : simR (outs f ++ X) stc1 stu).
+          { split; [exact (proj1 HR)|]. intros x Hx. cbn. rewrite upd_other; [|intros Hi; apply Hx, in_app_iff; now left | exact Hwf].
+            apply (proj2 HR). intros Hi. apply Hx, in_app_iff. now right. }
+          assert (HX1 : forall x, In x (outs f ++ X) -> RK o <= RK x).
+          { intros x Hx. apply in_app_iff in Hx as [Hx|Hx]; [rewrite (rk_same_func o x f Hf Hx); lia | specialize (HX x Hx); lia]. }
+          destruct (sim_args n f o IH Hf (params f) (incl_refl _) (outs f ++ X) stc1 stu [] stc2 rac stu1 argsu
+                      HR1 HX1 Hic1 Hiu Eac Eau Hh2) as [-> HR2].
+          injection Hc as <- <-.
+          (* all_results of the two twins agree outside X again *)
+          assert (HR3 : simR X stc2 (x_res (x_log stu1 (fname f, argsu)) (update_all_results pick f r (xres stu1)))).
+          { split; [exact (proj1 HR2)|]. intros x Hx. cbn [xres x_res x_log].
+            destruct (in_dec str_eq_dec x (outs f)) as [Hi|Hn].
+            - pose proof (frame_args kw full true n f o (frame kw full true n) Hf (params f) (incl_refl _) _ _ _ _ x Eac
+                            ltac:(rewrite (rk_same_func o x f Hf Hi); lia)) as F1.
+              pose proof (frame_args kw full false n f o (frame kw full false n) Hf (params f) (incl_refl _) _ _ _ _ x Eau
+                            ltac:(rewrite (rk_same_func o x f Hf Hi); lia)) as F2.
+              rewrite F1. subst stc1. cbn [xres x_res x_c].
+              destruct (multi f) eqn:Hm.
+              + rewrite !upd_get_multi by assumption. now rewrite F2, (proj2 HR x Hx).
+              + rewrite !upd_get_single by assumption. now rewrite F2, (proj2 HR x Hx).
+            - rewrite upd_other by assumption. apply (proj2 HR2). intros Hi. apply in_app_iff in Hi as [Hi|Hi]; contradiction. }
+          split; [|exact HR3]. rewrite <- Hvu. unfold out_of. now rewrite (proj2 HR3 o HoX).
+        - (* a miss *)
+          unfold miss_branch in Hc.
+          destruct (ARGS (RUNC n) f (params f) stc []) as [stc1 rac] eqn:Eac.
+          assert (Hh1 : xhit stc1 = false).
+          { destruct rac as [a|e]; [|injection Hc as <- _; exact Hh]. destruct (body (fname f) a); injection Hc as <- _; [|exact Hh].
+            destruct (the_key kw true f ra); exact Hh. }
+          assert (HX1 : forall x, In x X -> RK o <= RK x) by (intros x Hx; specialize (HX x Hx); lia).
+          destruct (sim_args n f o IH Hf (params f) (incl_refl _) X stc stu [] stc1 rac stu1 argsu
+                      HR HX1 Hic Hiu Eac Eau Hh1) as [-> HR1].
+          rewrite Ebu in Hc. injection Hc as <- <-.
+          set (stc3 := match the_key kw true f ra with
+                       | Some k => x_c (x_log stc1 (fname f, argsu)) (cput P (xc (x_log stc1 (fname f, argsu))) k ru)
+                       | None => x_log stc1 (fname f, argsu)
+                       end).
+          assert (E1 : xused stc3 = xused stc1) by (subst stc3; destruct (the_key kw true f ra); reflexivity).
+          assert (E2 : xres stc3 = xres stc1) by (subst stc3; destruct (the_key kw true f ra); reflexivity).
+          assert (HR2 : simR X (x_res stc3 (update_all_results pick f ru (xres stc3)))
+                           (x_res (x_log stu1 (fname f, argsu)) (update_all_results pick f ru (xres stu1)))).
+          { apply (simR_upd X stc3 (x_log stu1 (fname f, argsu)) f ru).
+            split; [rewrite E1; exact (proj1 HR1) | intros x Hx; rewrite E2; exact (proj2 HR1 x Hx)]. }
+          split; [|exact HR2]. rewrite <- Hvu. unfold out_of.
+          pose proof (proj2 HR2 o HoX) as E. cbn [xres x_res x_log] in E. rewrite E2 in E.
+          clear HR2 E1 E2. subst stc3. destruct (the_key kw true f ra); cbn [xres x_c x_log]; now rewrite E.
+      Qed.
+    End Twin.
 
   End OnPipeline.
 End Facts.
